@@ -62,6 +62,46 @@ def rand_ver(rng):
     return rng.choice(["", "", "v"]) + mk(core, pre, build)
 
 
+import re as _re
+_SV = _re.compile(r"^v?(0|[1-9][0-9]*)\.(0|[1-9][0-9]*)\.(0|[1-9][0-9]*)(?:-([0-9A-Za-z.-]+))?(?:\+([0-9A-Za-z.-]+))?$")
+KNOWN_BIG = "numeric-identifier>=2^64"
+
+
+def py_key(s):
+    """SemVer 2.0.0 section 11 on strings, with exact integers (independent reference)"""
+    m = _SV.match(s)
+    if not m:
+        return None
+    core = tuple(int(m.group(i)) for i in (1, 2, 3))
+    if m.group(4) is None:
+        return (core, (1,))                       # no pre-release: higher
+    ids = tuple((0, int(x), "") if x.isdigit() else (1, 0, x) for x in m.group(4).split("."))
+    return (core, (0, ids))
+
+
+def has_big(s):
+    m = _SV.match(s)
+    return bool(m and m.group(4) and any(x.isdigit() and int(x) >= 2 ** 64 for x in m.group(4).split(".")))
+
+
+def py_oracle(run, stream, res):
+    for c, r, m, v in res:
+        f = c.split(" ")
+        if f[0] != "SVC" or r == "ERR":
+            continue
+        a, b = unhx(f[1]), unhx(f[2])
+        ka, kb = py_key(a), py_key(b)
+        if ka is None or kb is None:
+            continue
+        exp = "LT" if ka < kb else "GT" if ka > kb else "EQ"
+        if r.split(" ")[0] != exp:
+            if has_big(a) or has_big(b):
+                run.known_hits[KNOWN_BIG] += 1
+            else:
+                run.add_violation("oracle", {"stream": stream, "request": c, "described": describe(c), "impl_reply": r, "expected": exp,
+                                             "oracle": "python reference of SemVer section 11 on the strings"}, True)
+
+
 def nontrivial(c, r):
     return r.startswith(("LT", "GT", "OK"))
 
@@ -69,7 +109,8 @@ def nontrivial(c, r):
 def corpus():
     pairs = [("1.0.0-alpha", "1.0.0"), ("1.0.0-Beta", "1.0.0-alpha"), ("1.0.0-SNAPSHOT", "1.0.0-rc.1"), ("1.2.3+build.1", "1.2.3+build.2"),
              ("1.2.3", "1.2.3+sha.abc"), ("1.0.0-rc.1+9", "1.0.0-rc.1+10"), ("1.0.0-alpha.1", "1.0.0-alpha.beta"), ("1.0.0-2", "1.0.0-10"),
-             ("1.0.0-a", "1.0.0-a.0"), ("1.0.0-18446744073709551615", "1.0.0-a"), ("1.0.0--", "1.0.0-0"), ("2.0.0", "10.0.0")]
+             ("1.0.0-a", "1.0.0-a.0"), ("1.0.0-18446744073709551615", "1.0.0-a"), ("1.0.0--", "1.0.0-0"), ("2.0.0", "10.0.0"),
+             ("1.0.0-18446744073709551616", "1.0.0-100000000000000000000"), ("1.0.0-18446744073709551616", "1.0.0--"), ("1.0.0-18446744073709551616", "1.0.0-5")]
     cs = []
     for a, b in pairs:
         cs.append(f"SVC {hx(a)} {hx(b)}")
@@ -83,6 +124,12 @@ def run_check(tier, seed):
     run = Run(PID, tier, seed)
     rng = random.Random(seed * 1000003 + 10)
     kw = dict(nontrivial=nontrivial, describe=describe)
+    from . import common as _common
+
+    def correspond(run_, stream, cases, **k):       # every stream is also judged by the python reference
+        res = _common.correspond(run_, stream, cases, **k)
+        py_oracle(run_, stream, res)
+        return res
     correspond(run, "corpus", corpus(), **kw)
 
     pres = universe_pre()
